@@ -823,6 +823,15 @@ func (config *Config) resolve() (changedFields set.Set[string], err error) {
 				continue valueLoop
 			}
 
+			if source < currentSource {
+				// Shadowed by a higher-priority source: the value must not affect
+				// the result at all, not even through a parse failure.
+				log.Infof("Skipping config value for %v from %v; "+
+					"already have a value from %v", name,
+					source, currentSource)
+				continue
+			}
+
 			log.Infof("Parsing value for %v: %v (from %v)",
 				name, rawValue, source)
 			var value any
@@ -861,12 +870,6 @@ func (config *Config) resolve() (changedFields set.Set[string], err error) {
 
 			log.Infof("Parsed value for %v: %v (from %v)",
 				name, value, source)
-			if source < currentSource {
-				log.Infof("Skipping config value for %v from %v; "+
-					"already have a value from %v", name,
-					source, currentSource)
-				continue
-			}
 			field := reflect.ValueOf(config).Elem().FieldByName(name)
 			field.Set(reflect.ValueOf(value))
 			newRawValues[name] = rawValue
